@@ -104,6 +104,12 @@ func newBed(c *fw.Ctx, o bedOpt) (*bed, error) {
 	svc.AddCharacteristic(b.WriteOnly.Characteristic)
 	svc.AddCharacteristic(b.ReadOnly.Characteristic)
 	svc.AddCharacteristic(b.NoEvent.Characteristic)
+	// a readable characteristic that has NO value until the application has its first reading (variant "values")
+	unset := characteristic.NewInt("F104")
+	unset.Format = characteristic.FormatInt32
+	unset.Perms = []string{characteristic.PermRead, characteristic.PermEvents}
+	unset.Value = nil
+	svc.AddCharacteristic(unset.Characteristic)
 	b.Extra.AddService(svc)
 	if o.Variant == "values" {
 		b.Bulb.Lightbulb.Brightness.SetValue(77)
@@ -115,6 +121,7 @@ func newBed(c *fw.Ctx, o bedOpt) (*bed, error) {
 		b.Bulb.Info.FirmwareRevision.SetValue("1.0\n\"")
 		b.ReadOnly.SetValue(`"`)
 		b.Thermo.TempSensor.CurrentTemperature.SetValue(-9.75)
+		unset.SetValue(7)
 	}
 	accs := []*accessory.Accessory{b.Switch.Accessory, b.Bulb.Accessory, b.Thermo.Accessory, b.Extra}
 	if o.Variant == "plus-outlet" {
@@ -124,6 +131,13 @@ func newBed(c *fw.Ctx, o bedOpt) (*bed, error) {
 		var id uint64
 		fmt.Sscanf(o.Variant, "extra-aid:%d", &id)
 		accs = append(accs, accessory.NewOutlet(accessory.Info{Name: "Outlet", ID: id}).Accessory)
+	}
+	if strings.HasPrefix(o.Variant, "bridged:") { // a bridge with n more accessories: a large attribute database
+		var n int
+		fmt.Sscanf(o.Variant, "bridged:%d", &n)
+		for i := 0; i < n; i++ {
+			accs = append(accs, accessory.NewOutlet(accessory.Info{Name: fmt.Sprintf("Bridged outlet %d", i), SerialNumber: fmt.Sprintf("BR-%04d", i)}).Accessory)
+		}
 	}
 	b.Bridge.OnIdentify(func() { atomic.AddInt32(&b.identify, 1) })
 	w, err := world.Start(world.Options{Dir: b.Dir, Pin: b.Pin, Snapshot: o.Snapshot}, b.Bridge.Accessory, accs...)
